@@ -93,6 +93,9 @@ def gen_history(st):
                 programs[s].append({"op": "read", "model": rng.below(nmodels), "what": rng.choice(["linkage", "to_dot", "maxnode"])})
             else:
                 programs[s].append({"op": "refit_twice", "model": rng.below(nmodels), "data": rng.below(ndata)})
+            if rng.below(8) == 0:
+                # the caller changes the limit of an existing model between fits (public attribute)
+                programs[s].append({"op": "set_max_dist", "model": rng.below(nmodels), "max_dist": rng.choice(["inf", float(rng.below(6)), round(rng.uniform(0.5, 8.0), 2)])})
     ops = sessions.interleave(st("sessions"), programs)
     return {"setup": {"data": data, "dicts": dicts, "nweights": nweights, "inplace": inplace}, "ops": ops}
 
@@ -364,6 +367,11 @@ def _make_model(spec, setup, live_dicts, weight_lists, mstates):
     return state
 
 
+def _rows(linkage):
+    """The linkage as a list of tuples of plain floats, whatever container the model keeps it in (a list of tuples, an array)."""
+    return [tuple(float(x) for x in row) for row in linkage]
+
+
 def _check_fit(state, dat, res, add, opi, bump):
     import numpy as np
     spec = state["spec"]
@@ -412,7 +420,7 @@ def _check_fit(state, dat, res, add, opi, bump):
     if spec["kind"] == "tree":
         tree = state["obj"]
         n = mon.n
-        link = list(tree.linkage)
+        link = _rows(tree.linkage)
         if tree._model.merge_hook is not state["user_merge_hook"]:
             # how the tree variant observes the merges is its own business; what a wrapper left behind would break (merges
             # recorded twice on the next fit) is what the tree-shape oracle of the next fit reports
@@ -497,7 +505,7 @@ def execute(history):
                       bump("env:merge_hook_calls", mon.merge_calls)
                   _check_fit(st, dat, res, add, opi, bump)
                   if spec["kind"] == "tree":
-                      st["last_linkage"] = list(st["obj"].linkage)
+                      st["last_linkage"] = _rows(st["obj"].linkage)
                   snap = core.digest_value({"res": {int(k): sorted(int(x) for x in v) for k, v in res.items()} if isinstance(res, dict) else res,
                                             "linkage": [[float(x) for x in row] for row in st["obj"].linkage] if spec["kind"] != "hier" else None})
                   obs.append([opi, snap, mon.merges])
@@ -515,6 +523,13 @@ def execute(history):
                                                  "linkage": [[float(x) for x in row] for row in fresh["obj"].linkage] if spec["kind"] != "hier" else None})
                       if snap3 != snap:
                           add({"class": "history-dependence", "detail": "fit on a reused %s model: %r, on a fresh model: %r" % (spec["kind"], str(snap)[:200], str(snap3)[:200])}, opi)
+              elif kind == "set_max_dist":
+                  st = models.get(op["model"])
+                  if st is None or st["spec"]["kind"] != "hier":
+                      continue
+                  st["obj"].max_dist = math.inf if op["max_dist"] == "inf" else float(op["max_dist"])
+                  st["spec"] = dict(st["spec"], max_dist=op["max_dist"])
+                  bump("op:set_max_dist")
               elif kind == "read":
                   st = models.get(op["model"])
                   if st is None or st["spec"]["kind"] == "hier" or not st.get("fits"):
@@ -522,7 +537,7 @@ def execute(history):
                   obj = st["obj"]
                   bump("op:read:" + op["what"])
                   if op["what"] == "linkage":
-                      if st["spec"]["kind"] == "tree" and list(obj.linkage) != st.get("last_linkage"):
+                      if st["spec"]["kind"] == "tree" and _rows(obj.linkage) != st.get("last_linkage"):
                           add({"class": "linkage-changed", "detail": "linkage read later differs from the linkage right after fit"}, opi)
                   elif op["what"] == "maxnode":
                       n = st["mon"].n
